@@ -92,6 +92,8 @@ def charge_audit(ck, gvh):
 def run(tier, seed):
     ck = vlib.Check("C06", tier, seed, level="proof")
     ok_obl = ck.obligations(PROP)
+    if tier == "thorough":
+        ck.coqchk(["GV.Properties.C06"])
     gvh, err = ck.build_gvh()
     if gvh is None:
         ck.violation("harness does not build against /repo", {"kind": "build", "stderr": err[-3000:]}, no_input=True)
